@@ -464,9 +464,19 @@ pub fn deliver(ctx: &mut Ctx, label: &str, spec: &str, sc: &Scene, rdr: &reader:
     let mut rdr = rdr.clone();
     let rk = rdr_view(&rdr);
     let (de, erk) = transcript.unwrap_or((&sc.de_bytes, &sc.erk_bytes));
-    let msg = session_data(Some(&aes_encrypt(&rk.sk_device, &iso_iv(true, rk.device_ctr as u32 + 1), &to_bytes(pt))), None);
+    // one delivery in three: the whole DeviceResponse in another valid encoding (as a third-party device may send it)
+    let third_party = { use rand::Rng; ctx.rng.gen_range(0..3) == 0 };
+    let mut pt_bytes = if third_party { ctx.loose_bytes(pt) } else { to_bytes(pt) };
+    // ciborium's typed reader refuses some valid encodings before anything is authenticated (an externally tagged
+    // enum such as deviceAuth written as an indefinite-length map: "invalid type: map, expected enum"; same family
+    // as findings F18/F19).  Such a response is not received at all, which is outside C03-C05: use the plain encoding.
+    if third_party && isomdl::cbor::from_slice::<isomdl::definitions::DeviceResponse>(&pt_bytes).is_err() && isomdl::cbor::from_slice::<isomdl::definitions::DeviceResponse>(&to_bytes(pt)).is_ok() {
+        ctx.count("encoding:third-party-refused-by-the-wire-decoder");
+        pt_bytes = to_bytes(pt);
+    }
+    let msg = session_data(Some(&aes_encrypt(&rk.sk_device, &iso_iv(true, rk.device_ctr as u32 + 1), &pt_bytes)), None);
     let r = catch(|| rdr.handle_response(&msg));
-    let desc = json!({"alteration": format!("{alt:?}"), "registry": reg_name, "digest_alg": format!("{:?}", sc.alg)});
+    let desc = json!({"alteration": format!("{alt:?}"), "registry": reg_name, "digest_alg": format!("{:?}", sc.alg), "third_party_encoding": third_party});
     let class = |k: &str| match k { "parsing_errors" => Some(0u64), "certificate_errors" => Some(1), "issuer_authentication_errors" => Some(2), "device_authentication_errors" => Some(3), _ => None };
     let st = |s: isomdl::presentation::authentication::AuthenticationStatus| match s {
         isomdl::presentation::authentication::AuthenticationStatus::Unchecked => 0u64,
